@@ -250,6 +250,12 @@ func (chain *Chain) loadState() error {
 	if err != nil || cache == nil {
 		return err
 	}
+	if cache.Number == 0 {
+		cache, err = chain.resumeInitialRound(cache)
+		if err != nil || cache == nil {
+			return err
+		}
+	}
 	state.CacheRound = cache
 
 	final, err := loadFinalRoundForNode(chain.persistStore, chain.ChainId, cache.Number-1)
@@ -274,6 +280,29 @@ func (chain *Chain) loadState() error {
 
 	chain.State = state
 	return nil
+}
+
+// resumeInitialRound handles a head round 0, which is only persisted if the
+// process stopped in the middle of finalizeNodeAcceptSnapshot. Without the
+// accept snapshot the chain is still pledging and the snapshot will be
+// finalized again, otherwise the missing round 1 is started.
+func (chain *Chain) resumeInitialRound(cache *CacheRound) (*CacheRound, error) {
+	final := cache.asFinal()
+	if final == nil {
+		return nil, nil
+	}
+	external, err := chain.node.getInitialExternalReference(cache.Snapshots[0])
+	if err != nil {
+		return nil, err
+	}
+	err = chain.persistStore.StartNewRound(cache.NodeId, 1, &common.RoundLink{
+		Self:     final.Hash,
+		External: external.Hash,
+	}, final.Start)
+	if err != nil {
+		return nil, err
+	}
+	return loadHeadRoundForNode(chain.persistStore, chain.ChainId)
 }
 
 func (chain *Chain) QueuePollSnapshots() {
